@@ -109,10 +109,11 @@ def run(chk):
         for part in core.parallel_map(_c02_sat, sat):
             obs += part
         return obs
-    return _gen(indexed, sat, chk.seed)
+    from .. import suite
+    return _gen(indexed, sat, chk.seed, suite.suite_rows(pid, chk) if pid in ('C02', 'C04') else None)
 
 
-def _gen(indexed, sat, seed):
+def _gen(indexed, sat, seed, extra=None):
     """thorough tier: behaviours are executed and validated in slices (bounded memory)"""
     step = 40000
     for k in range(0, len(indexed), step):
@@ -127,6 +128,8 @@ def _gen(indexed, sat, seed):
         for part in core.parallel_map(_c02_sat, sat):
             obs += part
         yield obs
+    if extra:
+        yield extra
 
 
 def _maximal(behs):
